@@ -156,6 +156,8 @@ func (language *Language) CompilerPasses() compiler.Passes {
 		&compiler.AnonymousEnumToExplicitType{},
 		&compiler.SanitizeEnumMemberNames{},
 		&compiler.FlattenDisjunctions{},
+		// flattening can leave `T | null` behind
+		&compiler.DisjunctionWithNullToOptional{},
 		&compiler.DisjunctionInferMapping{},
 		&compiler.UndiscriminatedDisjunctionToAny{},
 		&compiler.InlineObjectsWithTypes{
